@@ -26,16 +26,18 @@ Steps == 13
 
 \* st = [ph, out, live, C, M, m, w, w2, x, x2, n, res, reg, lo, hi, est, prem]
 CapInit(live, N) ==
-  [ph |-> "scc", N |-> N, out |-> OutFn(live, N), alive |-> {v \in 0..(N - 1) : live[v] # {}}, C |-> {}, M |-> <<>>, m |-> 0,
+  [ph |-> "scc", light |-> FALSE, N |-> N, out |-> OutFn(live, N), alive |-> {v \in 0..(N - 1) : live[v] # {}}, C |-> {}, M |-> <<>>, m |-> 0,
    w |-> <<>>, w2 |-> <<>>, x |-> <<>>, x2 |-> <<>>, n |-> 0, res |-> "?", reg |-> -1,
    lo |-> <<0, 1>>, hi |-> <<4, 1>>, est |-> <<>>, prem |-> <<0, 0, 0>>]
+\* light variant: regularity and exact estimates only (no component analysis); used for the uniform-pattern family at larger orders
+CapInitLight(live, N) == [CapInit(live, N) EXCEPT !.light = TRUE]
 MaxOfFn(f, S) == Max({f[v] : v \in S})
 ArgLo(w, w2, C) == CHOOSE v \in C : \A u \in C : MulGe(w2[u], w[v], w2[v], w[u])
 ArgHi(w, w2, C) == CHOOSE v \in C : \A u \in C : MulGe(w2[v], w[u], w2[u], w[v])
 CapStep(st) ==
   CASE st.ph = "scc" ->
          LET out == st.out
-             rp == [v \in DOMAIN out |-> ClosureO(out, out[v])]
+             rp == IF st.light THEN [v \in DOMAIN out |-> {}] ELSE [v \in DOMAIN out |-> ClosureO(out, out[v])]
              cyc == {v \in DOMAIN out : v \in rp[v]}
              A == st.alive
              \* regular: every vertex with out-arcs has exactly d successors that have out-arcs themselves
@@ -45,7 +47,7 @@ CapStep(st) ==
                        !.reg = IF A # {} /\ Cardinality(degs) = 1 THEN CHOOSE d \in degs : TRUE ELSE -1,
                        !.x = x0, !.x2 = [v \in DOMAIN out |-> FoldSet(LAMBDA u, a : a + x0[u], 0, out[v])],
                        !.ph = IF cyc # {} /\ \A u \in cyc : cyc \subseteq rp[u] THEN "pow" ELSE "est",
-                       !.res = IF cyc = {} THEN "acyclic" ELSE IF \A u \in cyc : cyc \subseteq rp[u] THEN "?" ELSE "not-single-scc",
+                       !.res = IF st.light THEN "not-classified" ELSE IF cyc = {} THEN "acyclic" ELSE IF \A u \in cyc : cyc \subseteq rp[u] THEN "?" ELSE "not-single-scc",
                        !.m = 1,
                        !.M = [u \in cyc |-> [v \in cyc |-> IF v \in out[u] THEN 1 ELSE 0]]]
     [] st.ph = "pow" ->
@@ -57,8 +59,9 @@ CapStep(st) ==
          \* Birkhoff coefficient phi = min over i, j, k, l of M[i][k] M[j][l] / (M[j][k] M[i][l]); for a pair (i, j) the minimum is reached
          \* at k = argmin M[i][.]/M[j][.] and l = argmax, so only those two columns are compared (cubic instead of quartic work)
          LET th == Theta[st.m] C == st.C M == st.M
-             kmin(i, j) == CHOOSE k \in C : \A k2 \in C : M[i][k] * M[j][k2] <= M[i][k2] * M[j][k]
-             kmax(i, j) == CHOOSE k \in C : \A k2 \in C : M[i][k] * M[j][k2] >= M[i][k2] * M[j][k]
+             \* argmin / argmax of the ratio M[i][k] / M[j][k] over k by one linear fold each (ratios compared by cross-multiplication)
+             kmin(i, j) == FoldSet(LAMBDA k, b : IF M[i][k] * M[j][b] < M[i][b] * M[j][k] THEN k ELSE b, CHOOSE k0 \in C : TRUE, C)
+             kmax(i, j) == FoldSet(LAMBDA k, b : IF M[i][k] * M[j][b] > M[i][b] * M[j][k] THEN k ELSE b, CHOOSE k0 \in C : TRUE, C)
              good(i, j) == LET a == kmin(i, j) b == kmax(i, j) IN MulGe(M[i][a] * M[j][b], th[2], M[j][a] * M[i][b], th[1])
          IN
          [st EXCEPT !.res = IF \A i \in C, j \in C : good(i, j) THEN "certified" ELSE "gap-unknown",
